@@ -1,6 +1,7 @@
 package props
 
 import (
+	_ "embed"
 	"encoding/json"
 	"encoding/xml"
 	"fmt"
@@ -18,6 +19,22 @@ import (
 	"verif/internal/step"
 )
 
+//go:embed kitchen.bpmn
+var kitchenXML []byte
+
+// c15Source returns the bytes of a bundled file or of the embedded "kitchen sink" document (@kitchen: one
+// hand-written definitions carrying every element kind, attribute and olive extension the schema knows that
+// fits into a page: imports, item definitions, messages, errors, escalations, resources, interfaces, data
+// stores, categories, correlation, partner entities, global tasks, collaboration, lanes, io specifications,
+// data associations with assignments, resource roles, loop characteristics, all event definitions, complex /
+// event-based gateways, transactions, ad-hoc sub-processes, data states, annotations, diagram interchange).
+func c15Source(f string) ([]byte, error) {
+	if f == "@kitchen" {
+		return kitchenXML, nil
+	}
+	return os.ReadFile(f)
+}
+
 type c15Case struct {
 	Name  string           `json:"name"`
 	Kind  string           `json:"kind"` // file | program | rich
@@ -27,6 +44,8 @@ type c15Case struct {
 	Vars  map[string]int64 `json:"vars,omitempty"`
 	Order []string         `json:"order,omitempty"`
 	Rich  int              `json:"rich,omitempty"` // PRNG index of the rich definitions
+	Shard  int             `json:"shard,omitempty"`  // mutate: this shard ...
+	Shards int             `json:"shards,omitempty"` // ... of so many
 	XPath bool             `json:"xpath,omitempty"`
 	Seed  uint64           `json:"seed,omitempty"`
 }
@@ -69,6 +88,29 @@ func c15Cases(tier string, seed uint64) []fw.Case {
 	for i := 0; i < nrich; i++ {
 		c := c15Case{Kind: "rich", Rich: i, Seed: seed, Name: fmt.Sprintf("rich/%d", i)}
 		cs = append(cs, fw.MkCase("rich", &c))
+	}
+	// mutation sweep: every attribute / text leaf of a model changed on its own, then the round trip
+	nm := 6
+	if tier == "thorough" {
+		nm = 40
+	}
+	const shards = 4
+	cs = append(cs, fw.MkCase("file", &c15Case{Kind: "file", File: "@kitchen", Name: "file/@kitchen"}))
+	for sh := 0; sh < 16; sh++ {
+		c := c15Case{Kind: "mutate", File: "@kitchen", Shard: sh, Shards: 16, Name: fmt.Sprintf("mutate/@kitchen/%d", sh)}
+		cs = append(cs, fw.MkCase("mutate", &c))
+	}
+	for _, f := range bundledFiles() {
+		for sh := 0; sh < shards; sh++ {
+			c := c15Case{Kind: "mutate", File: f, Shard: sh, Shards: shards, Name: fmt.Sprintf("mutate/%s/%d", f, sh)}
+			cs = append(cs, fw.MkCase("mutate", &c))
+		}
+	}
+	for i := 0; i < nm; i++ {
+		for sh := 0; sh < shards; sh++ {
+			c := c15Case{Kind: "mutate", Rich: i, Seed: seed, Shard: sh, Shards: shards, Name: fmt.Sprintf("mutate/rich%d/%d", i, sh)}
+			cs = append(cs, fw.MkCase("mutate", &c))
+		}
 	}
 	return fw.Number(cs)
 }
@@ -307,10 +349,97 @@ func diffClass(diff []string) string {
 	return b.String()
 }
 
+// c15Mutate: one leaf of the parsed model at a time is given another value (booleans flipped, strings
+// extended, numbers changed, absent optional attributes set); the changed model must survive
+// serialise+parse exactly like the original one. Finds attributes the writer drops, defaults or
+// re-derives and the reader fills in differently.
+func c15Mutate(c *c15Case, v *fw.V) {
+	var src []byte
+	if c.File != "" {
+		b, err := c15Source(c.File)
+		if err != nil {
+			v.Inconclusive("read", "%v", err)
+			return
+		}
+		src = b
+	} else {
+		src = []byte(richXML(c.Seed, c.Rich))
+	}
+	d0, err := schema.Parse(src)
+	if err != nil {
+		v.Inconclusive("parse", "%v", err)
+		return
+	}
+	n := len(canon.Slots(d0))
+	seenClass := map[string]bool{}
+	for i := c.Shard; i < n; i += c.Shards {
+		d, err := schema.Parse(src)
+		if err != nil {
+			v.Inconclusive("parse", "%v", err)
+			return
+		}
+		sl := canon.Slots(d)
+		if len(sl) != n {
+			v.Inconclusive("slots", "slot enumeration is not deterministic: %d vs %d", len(sl), n)
+			return
+		}
+		s := sl[i]
+		if c.File != "@kitchen" && seenClass[s.Class] {
+			// one witness per field of a struct type and shard is enough to keep the sweep fast
+			continue
+		}
+		seenClass[s.Class] = true
+		orig := canon.Model(d)
+		if strings.HasSuffix(s.Path, "TextPayloadField") || strings.HasSuffix(s.Path, "/Body") {
+			// character data counts only where the document carries text ("whitespace-only text aside"):
+			// the payload slots of elements without text content (and the shadowed payload fields of
+			// embedded base types, which no parse ever fills) are not attributes of the model
+			carrier := false
+			for _, l := range orig {
+				if strings.HasPrefix(l, s.Path+" = ") {
+					carrier = true
+					break
+				}
+			}
+			if !carrier {
+				continue
+			}
+		}
+		s.Mutate()
+		before := canon.Model(d)
+		if reflect.DeepEqual(orig, before) {
+			v.Add("mutations-invisible", 1)
+			continue
+		}
+		v.Add("mutations", 1)
+		out, err := xml.Marshal(d)
+		if err != nil {
+			v.Violate("marshal-error", "mutated:"+s.Class, "xml.Marshal failed after changing %s: %v", s.Path, err)
+			continue
+		}
+		if after := canon.Model(d); !reflect.DeepEqual(before, after) {
+			v.Violate("marshal-mutates-model", "mutated:"+s.Class, "serialising altered the model after changing %s: %v", s.Path, canon.Diff(before, after))
+			continue
+		}
+		d2, err := schema.Parse(out)
+		if err != nil {
+			v.Violate("reparse-error", "mutated:"+s.Class, "parsing the serialised model failed after changing %s: %v", s.Path, err)
+			continue
+		}
+		if re := canon.Model(d2); !reflect.DeepEqual(before, re) {
+			v.Violate("roundtrip-differs", "mutated:"+s.Class, "after changing %s the model differs after serialise+parse: %v", s.Path, canon.Diff(before, re))
+		}
+	}
+	v.Add("canonical-lines", len(canon.Model(d0)))
+	v.Add("slots", n)
+}
+
 func c15Run(c *c15Case, env *fw.Env, v *fw.V) {
 	switch c.Kind {
+	case "mutate":
+		c15Mutate(c, v)
 	case "file":
-		src, err := os.ReadFile(c.File)
+		src, err := c15Source(c.File)
 		if err != nil {
 			v.Inconclusive("read", "%v", err)
 			return
